@@ -34,7 +34,7 @@ Outbound == { [dir |-> "out", presented |-> p, len |-> n] : p \in Presented, n \
 ValidOut(r) == IF r.presented = "ownLen" THEN r.len \notin {0, 20} /\ (FullLens \/ r.len \in Corner) ELSE r.len = 20
 AcceptOut(r) == r.presented = "same"
 
-Subjects == {"plain", "empty", "utf8", "long", "special"}
+Subjects == {"plain", "empty", "utf8", "long", "special", "manyKeys"}     \* manyKeys: 700 certificates, i.e. 700 fresh keys
 Generator == { [dir |-> "gen", subject |-> s] : s \in Subjects }
 
 \* result: [accepted, shipSeen, attributed ("" or a SKI), certSki (the SKI extension of the presented certificate, hex)]
